@@ -387,6 +387,13 @@ def part_router(sub, tier, acc, k=None):
                 e = [([i % 24], i, 0xffffffff) for i in range(n)]
                 judge_load(acc, dict(part="router", sub=sub, n=n, chip=[0, 0],
                                      app=app, entries=None), e, [0, 0], app)
+        # entries whose route set is empty (a leaf without route)
+        for e in ([([], 0x5, 0xffffffff)],
+                  [([], 0x5, 0xffffffff), ([3], 0x6, 0xffffffff),
+                   ([], 0x7, 0xffffffff)]):
+            acc.nontrivial += 1
+            judge_load(acc, dict(part="router", sub=sub, entries=e,
+                                 chip=[0, 0], app=66), e, [0, 0], 66)
         for key, mask in KM:
             acc.nontrivial += 1
             e = [([0], key, mask), ([7], key ^ 1, mask)]
@@ -419,12 +426,27 @@ def part_router(sub, tier, acc, k=None):
         # several chips in one load_routing_tables call
         from rig.routing_table import RoutingTableEntry, Routes
         sim = SimMachine(repo(), 2, 2)
-        tables = {(0, 0): [([0], 1, 0xffffffff)],
-                  (1, 1): [([7, 2], 2, 0xffffffff), ([5], 3, 0xffffffff)],
-                  (1, 0): [([23], 4, 0xfffffff0)]}
+        same = [([7, 2], 2, 0xffffffff), ([5], 3, 0xffffffff)]
+        for tables in (
+                {(0, 0): [([0], 1, 0xffffffff)], (1, 1): list(same),
+                 (1, 0): [([23], 4, 0xfffffff0)]},
+                # identical tables on several chips, and twice on one chip
+                {(0, 0): list(same), (1, 1): list(same), (1, 0): list(same)},
+                {(1, 0): list(same), (0, 1): [([1], 9, 0xffffffff)],
+                 (1, 1): list(same)}):
+            part_tables_case(acc, sub, tables)
+        return
+    acc.sample(dict(part="router", sub=sub))
+
+
+def part_tables_case(acc, sub, tables):
+    from rig.routing_table import RoutingTableEntry, Routes
+    if True:
+        sim = SimMachine(repo(), 2, 2)
         acc.evaluations += 1
         acc.nontrivial += 1
         case = dict(part="router", sub=sub)
+        # the staging buffers hold different garbage on every chip
         with Session(sim) as s:
             try:
                 s.mc.load_routing_tables(
@@ -434,20 +456,30 @@ def part_router(sub, tier, acc, k=None):
                 acc.violation(dict(kind="exception", exc=type(e).__name__),
                               case, "load_routing_tables raised %r" % e)
                 return
-            for c, t in tables.items():
+            # ... and a second load of the same entries on the first chip
+            first = sorted(tables)[0]
+            try:
+                s.mc.load_routing_table_entries(
+                    [RoutingTableEntry({Routes(r) for r in rs}, k, m)
+                     for rs, k, m in tables[first]], first[0], first[1], 7)
+            except Exception as e:
+                acc.violation(dict(kind="exception", exc=type(e).__name__),
+                              case, "second load raised %r" % e)
+                return
+            for c in sim.chips:
+                t = tables.get(c, [])
                 got = [e for e in sim.chips[c].router[1:] if e is not None]
                 want = [(k, m, route_word(rs), 7) for rs, k, m in t]
+                if c == first:
+                    want = want + want
                 if got != want:
                     acc.violation(dict(kind="router_contents"), case,
-                                  "chip %r router holds %r, expected %r"
-                                  % (c, got, want))
-            if [e for e in sim.chips[(0, 1)].router[1:] if e is not None]:
-                acc.violation(dict(kind="other_chip_changed"), case,
-                              "chip (0,1) got entries")
+                                  "chip %r router holds %r, expected %r "
+                                  "(tables %r)" % (c, got, want,
+                                                   sorted(tables)))
             if sim.errors:
                 acc.violation(dict(kind="malformed_command"), case,
                               sim.errors[0])
-    acc.sample(dict(part="router", sub=sub))
 
 
 def run_shard(params, tier, acc):
